@@ -300,9 +300,10 @@ class StreamItemQueue:
             producer_task.cancel()  # type: ignore[union-attr]
             self._producer_cancelled = True
         if self._aborted:
-            # Aborted (or failed) before, so the cleanup has already run; only
-            # release a producer that was still parked.
-            return self._settle_parked() if parked else None
+            # Aborted (or failed) before, so the cleanup has already run or is
+            # still running in the producer task; wait for the producer in that
+            # case, which also releases a producer that was still parked.
+            return self._settle_parked() if running else None
         self._aborted = True
         if self._finished:
             # The source finished normally, so it must not be cleaned up; only
